@@ -58,7 +58,8 @@ def run(repo, tier, out):
         if not rec["sql"]:
             h.inconclusive.append(f"no statement captured for {desc}: {rec.get('error')}")
             continue
-        c = Ctx(K, "default")
+        # string sort keys (account addresses) are costlier for the solver than integer ids: one row less there
+        c = Ctx(K if case["resource"] in ("transactions", "logs") or tier == "quick" else K - 1, "default")
         pid = z3.Int("pagination_id")
         c.params["900001"] = vint(pid)
         db = c.db()
